@@ -58,26 +58,34 @@ L1B = ("arbitrary INV layout of a concrete *shape* (sequence of 2-5 consecutive 
        "capacity 4; one symbolic byte address w (pointwise oracle, universally quantified); symbolic choice of "
        "the operated region/hole among those of the shape")
 for (n, d, f, shapes) in [
-    ("c02_l1_last_", "Layout::len() = end of the allocated area whichever kind of extent is last; is_last_anything(r) <=> r's extent is the last extent (no hole, pending hole or reservation behind it)",
-     ["rawdb::Layout::len", "rawdb::Layout::is_last_anything"], "RP RS RH HR RR PRS RHP RPR SHR"),
+    ("c02_l1_lastq_", "Layout::len() = end of the allocated area whichever kind of extent is last; is_last_anything(r) <=> r's extent is the last extent (no hole, pending hole or reservation behind it)",
+     ["rawdb::Layout::len", "rawdb::Layout::is_last_anything"], "RP RS RH RR"),
+    ("c02_l1_last_", "same contract, further shapes",
+     ["rawdb::Layout::len", "rawdb::Layout::is_last_anything"], "HR PRS RHP RPR SHR"),
     ("c02_l1_find_", "find_smallest_adequate_hole(min) = start of a smallest promoted hole with size >= min, None iff none (pending holes and reservations are never offered)",
      ["rawdb::Layout::find_smallest_adequate_hole"], "HRHR RHPH HRHRH RPR"),
     ("c02_l1_compress_", "remove_or_compress_hole(start, by): first `by` bytes leave the free index, remainder stays one hole, every other byte keeps its classification; too small => Err",
      ["rawdb::Layout::remove_or_compress_hole", "rawdb::Layout::{insert_hole,remove_hole}"], "RHRH HPHR HRHRH"),
     ("c02_l1_remove_", "remove_region: the region's reserved extent becomes a pending (not yet reusable) hole; nothing else changes; best-fit search never returns it; len() unchanged",
      ["rawdb::Layout::remove_region"], "RHRP HRRH RRS PRH"),
-    ("c02_l1_promote_", "promote_pending_holes: pending -> promoted, coalesced with both neighbours into a maximal free extent; no byte changes between free and used; no promoted hole overlaps a live region; no two promoted holes adjacent; hole index stays the exact inverse",
-     ["rawdb::Layout::promote_pending_holes"], "HPRH HPHR RPHR RPRP PPRH HPPH RHPR HRPH HPRHR RR"),
+    ("c02_l1_promoteq_", "promote_pending_holes: pending -> promoted, coalesced with both neighbours into a maximal free extent; no byte changes between free and used; no promoted hole overlaps a live region; no two promoted holes adjacent; hole index stays the exact inverse",
+     ["rawdb::Layout::promote_pending_holes"], "HPRH HPHR RPRP PPRH"),
+    ("c02_l1_promote_", "same contract, further shapes",
+     ["rawdb::Layout::promote_pending_holes"], "RPHR HPPH RHPR HRPH HPRHR RR"),
     ("c02_l1_move_", "reserve(end) + move_region + take_reserved: old extent becomes pending, region keyed at the reserved target, reservation consumed, len() accounts for the reservation",
      ["rawdb::Layout::{reserve,take_reserved,move_region,insert_region}"], "RHR RRPH HR"),
 ]:
-    reg(H(n, "rawdb", "C02", mem=8, timeout=3000, group=True, desc=d + " [shapes: " + shapes + "]",
+    reg(H(n, "rawdb", "C02", mem=8, timeout=2400, group=True, desc=d + " [shapes: " + shapes + "]",
           bounds=L1B, functions=f, stubs=[FMT], also=("C01", "C05", "C10", "C12"),
-          quick_for={"c02_l1_last_": {"C02", "C05", "C10", "C12"}, "c02_l1_promote_": {"C02", "C01", "C05", "C10", "C12"},
+          quick_for={"c02_l1_lastq_": {"C02", "C05", "C10", "C12"}, "c02_l1_promoteq_": {"C02", "C01", "C05", "C10", "C12"},
+                     "c02_l1_last_": set(), "c02_l1_promote_": set(),
                      "c02_l1_find_": {"C02"}, "c02_l1_compress_": {"C02"}, "c02_l1_remove_": {"C02"},
                      "c02_l1_move_": {"C02"}}[n]))
 
 
+# ---------------------------------------------------------------------------------------------
+# Level 2: real rawdb operations on a Database built directly (real Layout, real metadata)
+# ---------------------------------------------------------------------------------------------
 # ---------------------------------------------------------------------------------------------
 # C15 lazy vectors
 # ---------------------------------------------------------------------------------------------
@@ -220,6 +228,8 @@ reg(
       desc="same state observed through read_only_clone(): every served index must be backed by region bytes",
       bounds=CMB + "; expanded states", functions=["vecdb::ReadOnlyRawVec::collect_one_at"], stubs=CMS),
 )
+
+
 reg(
     H("c15_delta_sub_reads", "vecdb", "C15", mem=8, timeout=900,
       desc="LazyDeltaVec<DeltaSub> over a mock source with a symbolic monotone window-start mapping (non-empty windows): range folds and point reads equal src[h] - src[start-1] (saturating; 0 look-back when start = 0), incl. ranges starting in the warm-up zone",
